@@ -127,7 +127,7 @@ Theorem C04_ring_first_derivative : forall (K : FOps) h (u : list K) j,
 Proof. exact ring_first_derivative. Qed.
 Print Assumptions C04_ring_first_derivative.
 
-Theorem C04_ring_second_derivative : forall (K : FOps) h (u : list K) j,
+Theorem C04_ring_second_derivative : forall (K : FOps), FLaws K -> forall h (u : list K) j,
   (j < length u)%nat ->
   nth j (diff_line K 2 h true true u (repeat true (length u))) (f0 K)
   = fdiv (fadd (fsub (nth ((j + length u - 1) mod length u) u (f0 K)) (fmul (f2 K) (nth j u (f0 K))))
